@@ -6,6 +6,7 @@ import (
 	"fmt"
 	"io"
 	"testing"
+	"time"
 
 	"github.com/parquet-go/parquet-go"
 	"pgregory.net/rapid"
@@ -161,7 +162,7 @@ func wrapRows(kind string, w *parquet.Writer) parquet.RowWriter {
 // count and size, never by wall clock): file-backed pools create temp files
 // per column and row group, so they get fewer positions.
 func boundedStride(c Case, size int) int {
-	max := kit.Pick(500, 6000)
+	max := kit.Pick(500, 2000)
 	if c.Opts.Pool == "file" {
 		max /= 8
 	}
@@ -279,6 +280,7 @@ var sinkSpec = &kit.Spec[Case]{
 	Assumptions: []string{"only contract-respecting sinks (a short count always comes with a non-nil error)"},
 	Gen:         genCase,
 	Run:         runSink,
+	CaseTimeout: 15 * time.Minute,
 }
 
 func TestPropSink(t *testing.T) { kit.Both(t, sinkSpec) }
@@ -545,6 +547,7 @@ var readSpec = &kit.Spec[Case]{
 	Assumptions: []string{"only contract-respecting sources (short count ⇒ non-nil error)", "memory blow-up on garbage footer lengths is out of scope (exit 2 if the shard's memory cap is hit)"},
 	Gen:         genCase,
 	Run:         runRead,
+	CaseTimeout: 15 * time.Minute,
 }
 
 func TestPropRead(t *testing.T) { kit.Both(t, readSpec) }
